@@ -64,6 +64,14 @@ Theorem C19_subtraces_count_children : forall addr l, flat_tree addr l ->
 Proof. exact (proj1 shape_children). Qed.
 Print Assumptions C19_subtraces_count_children.
 
+(** flattening never fails on frames of the types the EVM produces once the fuel exceeds the nesting depth (the model's
+    recursion is fuelled with 8192 > the call depth limit): so "flat_c ... = Some l" above is not a vacuous hypothesis *)
+Theorem C19_flattening_succeeds : forall convert fuel,
+  (forall f addr, types_ok_c f = true -> (depth_c f <= fuel)%nat -> exists l, flat_c convert fuel f addr = Some l) /\
+  (forall a addr, types_ok_a a = true -> (depth_a a <= fuel)%nat -> exists l, flat_a convert fuel a addr = Some l).
+Proof. exact flat_total. Qed.
+Print Assumptions C19_flattening_succeeds.
+
 From Verif Require Import Model.Exec Proofs.Exec_generic Proofs.Exec_stream.
 (** WHAT THE EVM FEEDS THE TRACERS IS SUCH A STREAM.  The callbacks the frame logic (Model/Exec.v) makes to a debug tracer
     that is also an Aspect logger — for every instruction semantics that makes no frame callbacks of its own, every entry
